@@ -109,8 +109,9 @@ def run(tier, rep):
     lens = [2, 3, 4, 5, 6, 7, 8, 9, 15, 16, 17, 31, 32, 33, 255, 256, 257, 511, 512, 1023, 1024, 1028, 1029]
     for n in lens:
         msgs.append(bytes(rnd.randrange(256) for _ in range(n)))
-    for _ in range(120 if quick else 2500):
-        msgs.append(bytes(rnd.randrange(256) for _ in range(rnd.randint(0, 1029 if not quick else 300))))
+    for rep_i in range(1 if quick else 3):          # EVERY length 0..1029
+        for n in range(1030):
+            msgs.append(bytes(rnd.randrange(256) for _ in range(n)))
     msgs += [b"\x00" * 40, b"\xff" * 40, b"\xd3\x00\x00"]
     recs = []
     for i, m in enumerate(msgs, 1):
